@@ -3,10 +3,11 @@ import itertools
 import wire
 import sgrterm
 from wire import mk_fmt
-from props.common import chunks_for, guarded, PALETTE
+from props.common import chunks_for, guarded, PALETTE, api_pool
 
 PROP = "C01"
 MODULES = ["Curtsies.Properties.C01"]
+SOURCES = {"curtsies/formatstring.py": ["Chunk.color_str", "FmtStr.__str__", "Chunk.__str__", "<module>"], "curtsies/termformatconstants.py": ["seq", "<module>"]}
 RULE = ("exhaustive: all 59 049 attribute dicts (9 fg x 9 bg x 3^6 styles, explicit False included) on a four-run string "
         "(text with newline+tab, unformatted run, empty run, wide+combining run); str(f) compared string-for-string with "
         "the model's `render`, and fed to the independent SGR reader (Python mirror of Spec/Sgr.lean, itself cross-checked "
@@ -88,6 +89,30 @@ def check(ctx):
         w = oracle_on(wire.dec_text(o[3:]), c)
         if w:
             ctx.violation(w, c)
+    # FmtStr values built through the public API with observations interleaved ("every FmtStr constructible
+    # through the public API"): str(f) must display what f's runs say, whatever was cached on the way
+    api_cases, api_objs = [], []
+    for _ in range(1500 if ctx.thorough else 300):
+        pool, _log = api_pool(ctx.rng, steps=10)
+        for f in pool:
+            try:
+                api_cases.append(wire.fmt_chunks(f))
+                api_objs.append(f)
+            except wire.Unencodable:
+                pass
+    strs = {}
+
+    def impl_obj(i_c):
+        i, _ = i_c
+        return guarded(lambda: "ok " + wire.enc_text(str(api_objs[i])))
+    outs2 = ctx.tie("C01/render-api-built", list(enumerate(api_cases)), lambda ic: line(ic[1]), impl_obj)
+    for c, o in zip(api_cases, outs2):
+        ctx.count(c, nontrivial=bool(c), tag="api-built")
+        if any("\x1b" in t or "\x9b" in t for t, _ in c):
+            continue
+        w = oracle_on(wire.dec_text(o[3:]), c) if o.startswith("ok ") else "str(f) raised " + o
+        if w:
+            ctx.violation("api-built value: " + w, c)
     # cross-check the Python mirror of the SGR spec against the Lean spec (driver op `display`) and pyte
     sample = [wire.dec_text(o[3:]) for o in outs[::37] if o.startswith("ok ")]
     sample += ["\x1b[1;31;44mx\x1b[mz", "\x1b[38;5;1mq", "a\x1b[2Ab", "\x9b31mx", "\x1b[;my", "\x1bAz", "x\x1b[3"]
